@@ -187,6 +187,12 @@ static void do_op(const char *op, int a, int b, const char *text)
     else if (!strcmp(op, "str_owned")) { sim_phase(1); SIM_str_owned_bufferify(a, &d); fetch_string(&d); }
 #endif
 #ifndef SIMC
+    else if (!strcmp(op, "str_final")) {
+        char *buf = exact(30); memset(buf, '#', 30);
+        sim_phase(1); SIM_str_final_bufferify(a, buf, 30); sim_phase(0); res_str(buf, 30); free(buf);
+    }
+#endif
+#ifndef SIMC
     else if (!strcmp(op, "str_lib")) { sim_phase(1); SIM_str_lib_bufferify(&d); fetch_string(&d); }
 #endif
     else if (!strcmp(op, "char_ret")) { sim_phase(1); SIM_char_ret_bufferify(a, &d); fetch_string(&d); }
